@@ -13,9 +13,9 @@
 (* The module refines HDFStore under disk <- DecodeFile(file), where Decode is *)
 (* HDFDatabase.update_from_file read line by line.                             *)
 EXTENDS Naturals, Sequences, FiniteSets, TLC
-CONSTANTS NKeys, Names, Scalars, Size1s, Vectors, Matrices
-VARIABLES db, pending, file, exists
-vars == <<db, pending, file, exists>>
+CONSTANTS NKeys, Names, Scalars, Size1s, Vectors, Matrices, WithProblem
+VARIABLES db, pending, file, exists, descr
+vars == <<db, pending, file, exists, descr>>
 
 \* ------------------------------------------------------------------ reading (update_from_file)
 \* names_to_arrays = {keys[int(k)]: array(v) for k, v in values_group["arr_i"].items()}
@@ -82,34 +82,49 @@ AppendEntry(fe, e) ==
 
 FullLayout(d) == [i \in 1..Len(d) |-> NewEntry(d[i])]
 
-Init == db = <<>> /\ pending = {} /\ file = <<>> /\ exists = FALSE
+Init == db = <<>> /\ pending = {} /\ file = <<>> /\ exists = FALSE /\ descr = FALSE
 
 Store(key, names) ==
   /\ key = Len(db) + 1 /\ key <= NKeys
   /\ db' = Abs!StoreInto(db, Abs!Entry(key, names))
   /\ pending' = pending \cup {key}                                  \* add_pending_array
-  /\ UNCHANGED <<file, exists>>
+  /\ UNCHANGED <<file, exists, descr>>
 
 StoreMore(key, names) ==
   /\ key \in KeysOf(db)
   /\ names \cap NamesOf(db[Pos(db, key)]) = {}
   /\ db' = Abs!StoreInto(db, Abs!Entry(key, names))
   /\ pending' = pending \cup {key}
-  /\ UNCHANGED <<file, exists>>
+  /\ UNCHANGED <<file, exists, descr>>
 
-\* HDFDatabase.to_file(database, path, append)
+\* HDFDatabase.to_file(database, path, append) on a file whose layout is f (ex: it exists)
+Written(f, ex, append) ==
+  IF append /\ ex /\ DOMAIN f # {}                                \* append and len(design_vars_grp) != 0
+  THEN \* for input_values in pending: index = position in the database;
+       \* str(index) in x ? append the missing outputs : create the entry at that index
+       LET touched == {Pos(db, key) : key \in pending}
+       IN [i \in (DOMAIN f) \cup touched |->
+             IF i \in DOMAIN f
+             THEN (IF i \in touched THEN AppendEntry(f[i], db[i]) ELSE f[i])
+             ELSE NewEntry(db[i])]
+  ELSE FullLayout(db)                                              \* mode "w", or an empty x group
+
+\* Database.to_hdf(path, append)
 Export(append) ==
-  /\ IF append /\ exists /\ DOMAIN file # {}                       \* append and len(design_vars_grp) != 0
-     THEN \* for input_values in pending: index = position in the database;
-          \* str(index) in x ? append the missing outputs : create the entry at that index
-          LET touched == {Pos(db, key) : key \in pending}
-          IN file' = [i \in (DOMAIN file) \cup touched |->
-                        IF i \in DOMAIN file
-                        THEN (IF i \in touched THEN AppendEntry(file[i], db[i]) ELSE file[i])
-                        ELSE NewEntry(db[i])]
-     ELSE file' = FullLayout(db)                                    \* mode "w", or an empty x group
+  /\ file' = Written(file, exists, append)
   /\ exists' = TRUE
+  /\ descr' = (descr /\ append)                                    \* mode "w" truncates the whole file
   /\ pending' = {}                                                  \* __pending_arrays.clear()
+  /\ UNCHANGED db
+
+\* OptimizationProblem.to_hdf(path, append): opens the file ("w" unless append), writes the description
+\* groups if (not append or they are absent), closes it, then database.to_hdf(path, append=True)
+ExportProblem(append) ==
+  /\ WithProblem
+  /\ file' = Written(IF append THEN file ELSE <<>>, TRUE, TRUE)
+  /\ exists' = TRUE
+  /\ descr' = TRUE
+  /\ pending' = {}
   /\ UNCHANGED db
 
 \* db = Database.from_hdf(path): a fresh database filled by update_from_file
@@ -117,19 +132,27 @@ Reload ==
   /\ exists
   /\ db' = DecodeFile(file)
   /\ pending' = KeysOf(db')
-  /\ UNCHANGED <<file, exists>>
+  /\ UNCHANGED <<file, exists, descr>>
 
 \* db.update_from_hdf(path) on the working database
 Update ==
   /\ exists
   /\ db' = Abs!StoreAll(db, DecodeFile(file), 1)
   /\ pending' = pending \cup KeysOf(DecodeFile(file))
-  /\ UNCHANGED <<file, exists>>
+  /\ UNCHANGED <<file, exists, descr>>
+
+\* problem = OptimizationProblem.from_hdf(path): its database is Database.from_hdf(path)
+ReloadProblem ==
+  /\ WithProblem /\ descr
+  /\ db' = DecodeFile(file)
+  /\ pending' = KeysOf(db')
+  /\ UNCHANGED <<file, exists, descr>>
 
 Next == \/ \E key \in 1..NKeys, names \in SUBSET Names : Store(key, names) \/ StoreMore(key, names)
-        \/ \E a \in BOOLEAN : Export(a)
+        \/ \E a \in BOOLEAN : Export(a) \/ ExportProblem(a)
         \/ Reload
         \/ Update
+        \/ ReloadProblem
 Spec == Init /\ [][Next]_vars
 
 -----------------------------------------------------------------------------
@@ -141,7 +164,7 @@ FileEntryOK(fe) ==
 TypeOK == /\ Len(db) <= NKeys /\ \A i \in DOMAIN db : Abs!EntryOK(db[i])
           /\ DOMAIN file \subseteq 1..NKeys /\ \A i \in DOMAIN file : FileEntryOK(file[i])
           /\ pending \subseteq KeysOf(db)
-          /\ exists \in BOOLEAN
+          /\ exists \in BOOLEAN /\ descr \in BOOLEAN /\ (descr => exists)
 \* range(len(x)) must hit existing datasets; entry i of the file is point i of the database
 NoHole == Contiguous(file)
 KeysAligned == \A i \in DOMAIN file : i <= Len(db) /\ file[i].x = db[i].key
@@ -166,7 +189,7 @@ RoundTrip == (exists /\ pending = {}) => DecodeFile(file) = db
 \* ... and to what one full export of the database decodes to
 FullDecodes == DecodeFile(FullLayout(db)) = db
 AppendEqualsFull == (exists /\ pending = {}) => DecodeFile(file) = DecodeFile(FullLayout(db))
-ExportStep == \E a \in BOOLEAN : Export(a)
+ExportStep == \E a \in BOOLEAN : Export(a) \/ ExportProblem(a)
 RoundTripStep == [][ExportStep => (DecodeFile(file') = db' /\ DecodeFile(file') = DecodeFile(FullLayout(db')))]_vars
 \* refinement of the abstract specification
 Refines == Abs!Spec
